@@ -21,6 +21,7 @@ pub const P03: PS = PS::of(Prop::C03);
 pub struct Src<'a, T> {
     pub it: std::vec::IntoIter<T>,
     pub pulled: &'a Cell<usize>,
+    pub hint: u8,
 }
 impl<T> Iterator for Src<'_, T> {
     type Item = T;
@@ -31,6 +32,17 @@ impl<T> Iterator for Src<'_, T> {
             self.pulled.set(self.pulled.get() + 1);
         }
         x
+    }
+    /// what the source reports as size_hint; every variant is truthful (a lower bound that is
+    /// not above, an upper bound that is not below the number of items still to come)
+    fn size_hint(&self) -> (usize, Option<usize>) {
+        let n = self.it.len();
+        match self.hint & 3 {
+            0 => (n, Some(n)),
+            1 => (0, None),
+            2 => (n, None),
+            _ => (0, Some(n)),
+        }
     }
 }
 
@@ -571,7 +583,9 @@ impl<'c, KD: Kind, const N: usize> MapEng<'c, KD, N> {
         let liar = self.liar;
         let mut fault = self.drop_slot1();
         self.cloned_at = None;
-        let sub = scale(c, 3);
+        // c is a 7-bit argument (the top bit of the byte selects the container)
+        let sub = (c as usize * 3) >> 7;
+        let hint = c;
         let len = if sub == 2 { N } else { scale(a, 3 * N + 3) };
         let u = self.univ as u32;
         let base = self.newval(0);
@@ -616,11 +630,11 @@ impl<'c, KD: Kind, const N: usize> MapEng<'c, KD, N> {
         let pulled = Cell::new(0usize);
         let r: Result<M<KD, N>, Pk> = match sub {
             0 => {
-                let src = Src { it: items.into_iter(), pulled: &pulled };
+                let src = Src { it: items.into_iter(), pulled: &pulled, hint };
                 Self::lib(cx, || M::<KD, N>::from_iter(src))
             }
             1 => {
-                let src = Src { it: items.into_iter(), pulled: &pulled };
+                let src = Src { it: items.into_iter(), pulled: &pulled, hint };
                 Self::lib(cx, || src.collect::<M<KD, N>>())
             }
             _ => {
@@ -691,7 +705,12 @@ impl<'c, KD: Kind, const N: usize> MapEng<'c, KD, N> {
                     cx.chk(P16.and(Prop::C03), overflow_at.is_some(), "spurious-overflow", || format!("{} panicked although only {} distinct keys were supplied to a container of {N}", names[sub], want.len()));
                 }
             }
-            Err(p) => fault |= unexpected(cx, liar, P16, &p),
+            Err(p) => {
+                // any other library panic: spurious when every distinct key fits (C16; and C03's
+                // "replacing the value of a present key succeeds on a full container")
+                let owner = if overflow_at.is_none() { P16.and(Prop::C03) } else { P16 };
+                fault |= unexpected(cx, liar, owner, &p)
+            }
         }
         self.note_fault(fault, true);
         self.cur_target = 1;
